@@ -81,6 +81,15 @@ def build(rng, stratum):
         t = types.fresh()
         m = "m%d" % ci
         prog.append(["mem", m, t])
+        if rng.random() < 0.35:
+            # a reader of the cell declared BEFORE the write statement (arithmetic, comparison or alias)
+            ek = rng.choice(["arith", "arith", "cmp", "alias"])
+            if ek == "arith":
+                prog.append(["sig", "early%d" % ci, ["p", ["b", rng.choice(["*", "+"]), ["r", m], ["n", rng.randint(2, 6)]], types.fresh()]])
+            elif ek == "cmp":
+                prog.append(["sig", "early%d" % ci, ["p", ["c", ">", ["r", m], ["n", rng.randint(0, 9)]], types.fresh()]])
+            else:
+                prog.append(["sig", "early%d" % ci, ["p", ["r", m], types.fresh()]])
         n = {"single": 1, "accumulator": 1}.get(stratum, rng.randint(1, 8))
         if stratum == "inline":
             # one expression, all steps inline
